@@ -13,7 +13,8 @@
 (***************************************************************************)
 EXTENDS Discov, Json
 
-CONSTANTS MaxLen, MaxDisc, MaxReload, MinFail, MaxFail
+CONSTANTS MaxLen, MaxDisc, MaxReload, MinFail, MaxFail,
+          QuietUp    \* TRUE: the registry changes only during outages (plans that spend their length there)
 
 VARIABLES hist, ndisc, nrel, nfail
 
@@ -28,7 +29,7 @@ Step ==
      /\ UNCHANGED <<ndisc, nrel>>
   \/ /\ attached # {}
      /\ UNCHANGED nfail
-     /\ \/ (\E k \in Keys : Put(k) \/ Delete(k)) /\ UNCHANGED <<ndisc, nrel>>
+     /\ \/ (QuietUp => ~up) /\ (\E k \in Keys : Put(k) \/ Delete(k)) /\ UNCHANGED <<ndisc, nrel>>
         \/ (\E s \in Subs : Attach(s)) /\ UNCHANGED <<ndisc, nrel>>
         \/ ndisc < MaxDisc /\ Disconnect /\ ndisc' = ndisc + 1 /\ UNCHANGED nrel
         \/ backlog # <<>> /\ Resume /\ UNCHANGED <<ndisc, nrel>>
